@@ -49,6 +49,14 @@ var concSources = []string{
 	`find all @/(a/`,
 	`find all (`,
 	`find all @/(x)(y)(z)\3\2\1/ find all @/(q)\1/`,
+	// two regex literals, the first without a group; lexer errors (unterminated
+	// string, unknown character, unterminated block comment), a long source
+	`find all @/x+/ '-' @/(y)(z)\2\1/`,
+	`find all @/[ab]+/ find all @/(a)(b)?\1/`,
+	`find all 'abc`,
+	`find all 'a' # 'b'`,
+	`find all 'a' --( never closed`,
+	`find all 'a' -- a comment\n  'b' --( block )-- or 'c'  -- tail`,
 }
 
 var concTexts = []string{"abba abab c", "aabbc ac bcb", "a1b22 xyzzyx qq", "", "ababababababababababab aaaaaaaaaaaaaaaaaaaaaaaaaaaaaa 01234567890123456789"}
